@@ -7,7 +7,14 @@
    Definitions: Model/AutoTraits.v (declaration embedding + rustc's auto-trait rules as an
    evaluator), Proofs/C20P.v (the expectation tables = the specification, and the proofs).
    `asm tr n` = "the n-th type parameter implements tr" (rustc's parameter environment); a
-   statement for all `asm` covers every instantiation of the element / source types. *)
+   statement for all `asm` covers every instantiation of the element / source types.
+   Session 3 additions: std cells as field types are evaluated with their std auto-trait rules
+   (OnceCell as Cell; RwLock / OnceLock; atomics; maps and sets) instead of being reported as
+   unreadable -- so e.g. a OnceCell cache field breaks C20_send_sync_iff / C20_expectations_met on the
+   Sync half only; C20_adaptors_store_source, C20_adaptors_carry_argument_borrow,
+   C20_lifetime_types_store_ref (which concrete types store a borrow: the model side of the
+   outlive-type / conflict-type probes); C20_all_seals_closed (every use of the sealing pattern the
+   translator finds, not only Similar). *)
 From Coq Require Import List Arith Bool.
 From EasyML Require Import Model.AutoTraits Gen.Types Proofs.C20P.
 Import ListNotations.
@@ -117,6 +124,41 @@ Theorem C20_seal_impls_closed :
   seal_impls_closed sealed_impls "tensors::operations" "private" "Sealed" = true.
 Proof. exact seal_impls_closed_ok. Qed.
 
+(* EVERY trait of the crate that names a supertrait living in a private inline module (the list is
+   regenerated by the translator; Similar is one of them) is sealed in the full sense: private module
+   that nothing re-exports, the supertrait is written with every type parameter of the sealed trait,
+   the sealing trait's impls are for a closed set of crate types and live in the sealing module *)
+Theorem C20_all_seals_closed :
+  forallb seal_ok seal_uses = true /\
+  existsb (seal_use_eqb ("tensors::operations", "Similar", "private", "Sealed")) seal_uses = true.
+Proof. exact all_seals_closed. Qed.
+
+(* the by-value view adaptors / wrappers / owned iterators / record containers store their source
+   parameter S itself as a field (C20P.source_table: type, field, index of S) ... *)
+Theorem C20_adaptors_store_source :
+  forallb (fun e => let '(n, fld, k) := e in stores_param decls n fld k) source_table = true.
+Proof. exact adaptors_store_source. Qed.
+
+(* ... so instantiated at S = &Tensor<f64> and at S = &mut Tensor<f64> a value stores a reference
+   (it cannot outlive the tensor and excludes conflicting uses of it), at S = Tensor<f64> it does not
+   (it owns its source): for the 21 entries of the table without a lifetime parameter of their own and
+   for TensorTranspose *)
+Theorem C20_adaptors_carry_argument_borrow :
+  List.length borrowing_adaptors = 22 /\
+  forallb (fun e => stores_ref decls (instance_at (fst e) (snd e) (TRef LAnon false tensor_f64)) &&
+                    stores_ref decls (instance_at (fst e) (snd e) (TRef LAnon true tensor_f64)) &&
+                    negb (stores_ref decls (instance_at (fst e) (snd e) tensor_f64)))
+          borrowing_adaptors = true.
+Proof. exact adaptors_carry_argument_borrow. Qed.
+
+(* for EVERY declaration of the crate, instantiated at plain data: it stores a (non-'static)
+   reference exactly when it has a lifetime parameter of its own *)
+Theorem C20_lifetime_types_store_ref :
+  forallb (fun d => Bool.eqb (stores_ref decls (TApp (dname d) (map (fun _ => LAnon) (seq 0 (dlts d)))
+                                                     (map (fun _ => TPrim "f64") (seq 0 (dtys d)))))
+                             (Nat.ltb 0 (dlts d))) decls = true.
+Proof. exact lifetime_types_store_ref. Qed.
+
 (* the five marker traits are `unsafe trait`s: implementing them needs `unsafe impl` *)
 Theorem C20_unsafe_markers : forallb (is_unsafe_trait traits) unsafe_markers = true.
 Proof. exact markers_unsafe. Qed.
@@ -146,6 +188,19 @@ Proof.
   split; [exact mutant_no_refcell | exact mutant_raw_pointer].
 Qed.
 
+(* non-vacuity of the std-cell rules: a `OnceCell<DataLayout>` cache field in interop::MatrixRefTensor
+   keeps it Send and makes it (and a MatrixView over it) lose Sync; a OnceLock would not *)
+Example C20_nonvacuous_once_cell :
+  let ds := with_fields MRT [("source", TParam 1); ("layout", TCell (TApp "matrices::views::DataLayout" [] []));
+                             ("_type", TPhantom (TParam 0))] decls in
+  holds ds all_true Send (G MRT) = true /\ holds ds all_true Sync (G MRT) = false /\
+  holds ds all_true Sync (TApp "matrices::views::MatrixView" [] [TPrim "f64"; TApp MRT [] [TPrim "f64"; tensor_f64]]) = false /\
+  holds decls all_true Sync (TApp "matrices::views::MatrixView" [] [TPrim "f64"; TApp MRT [] [TPrim "f64"; tensor_f64]]) = true /\
+  (let ds' := with_fields MRT [("source", TParam 1); ("layout", TRwLock (TApp "matrices::views::DataLayout" [] []));
+                               ("_type", TPhantom (TParam 0))] decls in
+   holds ds' all_true Sync (G MRT) = true).
+Proof. exact mutant_once_cell_cache. Qed.
+
 Print Assumptions C20_tape_not_sync.
 Print Assumptions C20_tape_send_iff.
 Print Assumptions C20_record_not_send_nor_sync.
@@ -165,3 +220,7 @@ Print Assumptions C20_seal_covers_rhs.
 Print Assumptions C20_seal_impls_closed.
 Print Assumptions C20_unsafe_markers.
 Print Assumptions C20_fuel_stable.
+Print Assumptions C20_all_seals_closed.
+Print Assumptions C20_adaptors_store_source.
+Print Assumptions C20_adaptors_carry_argument_borrow.
+Print Assumptions C20_lifetime_types_store_ref.
